@@ -153,6 +153,9 @@ class Check:
             'batch': rng.random() < 0.3, 'eager': rng.random() < 0.3, 'coalesce': rng.random() < 0.3,
             'rand_seed': rng.randrange(1 << 30),
         }
+        if rng.random() < 0.2:
+            run['sim']['tty'] = True
+            run['sim']['cols'] = rng.choice([40, 80, 200])
         if rng.random() < 0.04:
             run['sim']['harness_signals'] = [[round(rng.uniform(0.0, 3.0), 3), 15]]
         if run.get('sim_extra_signal'):
@@ -578,7 +581,7 @@ class Check:
                     else:
                         c['runs'][ri][key] = simple
                     yield c
-            for key in ('batch', 'eager', 'coalesce', 'tie_random'):
+            for key in ('batch', 'eager', 'coalesce', 'tie_random', 'tty'):
                 if r['sim'].get(key):
                     c = copy.deepcopy(sc)
                     c['runs'][ri]['sim'][key] = False
